@@ -170,7 +170,9 @@ CLAIMED = {
              "the battery range check), legacy_same (the pymysensors layout loads to the same registry); tied to the real "
              "Persistence.save/load on real files with registries reached through wire histories and boundary content.",
         design="7 C13", technique="Lean 4 proof (round-trip law over a generated-schema interpreter; reachability invariant by Hoare logic + induction over histories) + differential correspondence on real files",
-        note=NOTE_COMMON + "JSON text <-> value (json.dumps/loads, sort_keys) is trusted; marshmallow's coercions are modelled and "
+        note=NOTE_COMMON + "JSON text <-> value is modelled and proved for the values save produces (real literals, lone surrogate escapes and the "
+             "recursion limit stay outside the model); extra hypothesis of the text-level theorems: regIntsOK (integers within the "
+             "digit limit). marshmallow's coercions are modelled and "
              "re-measured against the live library on every run (truthy/falsy sets, Int/Str/Bool/Dict behaviour)."),
     "C14": dict(
         text="Lean theorem load_total: for every file state (missing, unreadable, undecodable, not JSON, too deep, and EVERY JSON "
@@ -179,8 +181,9 @@ CLAIMED = {
              "raise is named by a clause); missing_creates, empty_is_empty; tied to the real load on real files: every prefix of "
              "valid files, every single-position shape/type mutation, random JSON, undecodable bytes, deep nesting.",
         design="7 C14", technique="Lean 4 proof (totality over all JSON values against generated except tuples) + differential correspondence on real files",
-        note=NOTE_COMMON + "The byte -> JSON-value classification is done by the real json.loads in the harness (parser not "
-             "modelled). A missing parent directory makes the file creation fail with the persistence WRITE error: outside the "
+        note=NOTE_COMMON + "The byte -> JSON-value classification is modelled (classify: strict UTF-8, parse) and compared with the real "
+             "load on every generated file; real literals, lone surrogate escapes and deep nesting are classified by the real "
+             "json.loads only. A missing parent directory makes the file creation fail with the persistence WRITE error: outside the "
              "property's quantifier (file contents), reported as a note."),
 }
 
@@ -242,8 +245,25 @@ CLAIMED["C12"]["text"] = CLAIMED["C12"]["text"].replace("or the transport error;
 CLAIMED["C15"]["text"] += (" For ANY operation sequence: gap_is_fatal (a crash point at which the live file is missing or empty is fatal for every "
                            "pair of non-empty registries) and backup_first_not_crash_safe; saves made by the Persistence object that loaded the "
                            "old file (six layouts of the old file) are instrumented too, and unlogged changes of the live file become crash states.")
+CLAIMED["C05"]["text"] += (" The version model now covers EVERY string (Model/AwesomeVersion.lean: awesomeversion 24.6's normalisation, "
+                           "strategy detection incl. the CalVer / PEP 440 regular expressions, modifiers, sections and compare handlers against a "
+                           "major.minor key): release_grammar_agrees, plain_integer_selects, select_total (protocol / compare error / ValueError / "
+                           "IndexError, all caught by the generated except tuple), compare_error_iff, index_error_iff, select_spec_av; tied to the "
+                           "real get_protocol on a corpus of ~300 structured strings and 2 000 / 20 000 random strings per run (outcome, strategy "
+                           "and each of the five comparisons).")
+CLAIMED["C05"]["note"] = NOTE_COMMON + ("Not generated: lone surrogates (not a Lean Char) and long CalVer-shaped strings on which the real regular "
+                                       "expression backtracks cubically.")
+for _k in ("C13", "C14", "C15"):
+    CLAIMED[_k]["text"] += (" The JSON text layer is modelled (Model/JsonText.lean: render = json.dumps(indent=2, ensure_ascii), parse = json.loads as a "
+                            "one-pass machine, strict UTF-8) with parse_render and prefix_not_json proved; ")
+CLAIMED["C13"]["text"] += "saved_text_round_trip / saved_bytes_accepted state the round trip at the level of the file's bytes, for registries in any insertion order."
+CLAIMED["C14"]["text"] += "every generated file is also loaded from its bytes through the modelled decoder and parser and compared with the real load."
+CLAIMED["C15"]["text"] += ("the abstract Loader is instantiated by the real loader (UTF-8 decode, parse, schema load / saveBytes) whose three laws are "
+                           "theorems: crash_load_classes_real, not_crash_safe_real, atomic_if_renamed_real; every materialised crash state is loaded "
+                           "through the modelled loader as well.")
 CLAIMED["C16"]["text"] = CLAIMED["C16"]["text"].replace("exit_clean, ", "exit_clean, cancel_exit_clean (leaving by cancellation of the task that runs the context), ")
-CLAIMED["C16"]["text"] += " Two sessions on the same objects are run for every built-in transport kind."
+CLAIMED["C16"]["text"] += (" Two sessions on the same objects are run for every built-in transport kind, and slow connects / long bodies on an "
+                           "event loop whose clock is virtual (every timer of the code under test runs in virtual time).")
 CLAIMED["C19"]["text"] = (
     "Whole histories, both cases of the property: history_stable (same major line: equal outcomes and writes at every step and "
     "similar states, by induction over any history with faults, cancellations and sends, via a non-interference traversal) and "
